@@ -89,7 +89,9 @@ func (d DeploySpec) Options() *types.DeployOptions {
 	return o
 }
 
-const opTimeout = 90 * time.Second
+// opTimeout is the watchdog for result streams: normal latency is 10-500 ms, so 30 s is > 50x slack
+// even on a loaded machine; an expiry is re-run once by the properties before it counts.
+const opTimeout = 30 * time.Second
 
 func (w *World) opCtx() (context.Context, context.CancelFunc) {
 	return context.WithTimeout(w.Ctx, opTimeout)
@@ -140,6 +142,11 @@ func (w *World) AddNode(ns NodeSpec) error {
 func (w *World) Create(d DeploySpec) (msgs []*types.CreateWorkloadMessage, err error, closed bool) {
 	ctx, cancel := w.opCtx()
 	defer cancel()
+	return w.CreateCtx(ctx, d)
+}
+
+// CreateCtx is Create under a caller-owned context (which the caller may cancel mid-deployment).
+func (w *World) CreateCtx(ctx context.Context, d DeploySpec) (msgs []*types.CreateWorkloadMessage, err error, closed bool) {
 	ch, err := w.Cal.CreateWorkload(ctx, d.Options())
 	if err != nil {
 		return nil, err, true
